@@ -949,6 +949,8 @@ var engineMeta = map[string]meta{
 		stub: []string{"recording SpanProcessor(s) that deep-copy the snapshot at OnEnd"}, assumptions: append([]string{"the sequential span model covers default span limits only (limits and truncation are C04, not claimed)"}, commonAssumptions...)},
 	"metricsim": {real: []string{"sdk/metric (meter, instrument, pipeline, cache, manual_reader, periodic_reader, view, provider) and sdk/metric/internal/aggregate (sum, lastvalue, histogram, limiter, filter) instrumented by simgen from the current working tree", "sdk/metric/internal/x cardinality-limit feature flag (really set through the environment)"},
 		stub: []string{"metric.Exporter behind the periodic reader (scripted: ok/error/slow)", "harness gate that keeps measurements out of joint collections (a legal schedule restriction, not part of the SDK)"}, assumptions: commonAssumptions},
+	"lifecycle": {real: []string{"sdk/trace, sdk/metric, sdk/log providers with the stock Simple/Batch processors, Manual/Periodic readers, all instrumented by simgen from the current working tree", "stock exporters: tracetest.InMemoryExporter, stdouttrace, stdoutmetric, stdoutlog (writing to a stamped in-memory writer), and nil exporters"},
+		stub: []string{"thin counting wrappers around processors and exporters"}, assumptions: commonAssumptions},
 	"logbatch": {real: []string{"sdk/log (batch.go, exporter.go, ring.go, logger.go, record.go, provider.go) instrumented by simgen from the current working tree", "internal/global"},
 		stub: []string{"log.Exporter (scripted: ok/error/slow/hang-until-ctx)", "a second Processor that mutates the record it is given"}, assumptions: commonAssumptions},
 }
